@@ -46,6 +46,27 @@ CHECKS = {
  "C18": ("E3", "bounded-exhaustive enumeration of header word-length combinations and of ALL ways to split a producer's output (every <=2/3 cut set, every uniform chunk size, all 2^12 splittings of 13 blocks) for every content length 0..200; independent line scanner as oracle",
          "~380k (quick) renderings; each is scanned for CRLF-only, 76/78 limits, unfold identity and decode identity.",
          "Contents are generated patterns, not arbitrary bytes (C01 covers byte values).", "§4 C18"),
+ "C05": ("E3", "bounded-exhaustive input enumeration: all local parts of length 1..3 over a 14-symbol hostile alphabet, bare and quoted, x domains x 8 setters; HELO names, credentials, DSN combinations; every command line judged by the strict RFC 5321 parser of the reference server",
+         "~95k sends; the reverse/forward path parsed from the wire must denote the mailbox the caller set (own RFC 5322 reading of the input) or nothing is sent.",
+         "refsmtp path grammar written from RFC 5321/6531; bare non-dot-atom inputs are judged for line discipline only.", "§4 C05"),
+ "C06": ("E3", "exhaustive enumeration of ALL operation sequences of length 0..3 (thorough 0..4) over 31 concrete address-setting operations against a reference model, followed by render and send",
+         "31^3 = 30k (thorough 31^4 = 950k) programs; reference model resynchronised from getters only where the property is silent; envelope checked in the reference server's commit, header parsed back by the harness' own address-list parser, Bcc-only addresses searched in every rendered byte.",
+         "Operations use a fixed pool of addresses (quoted names, RFC 2047 names, duplicates, invalid).", "§4 C06"),
+ "C07": ("E1", "exhaustive configuration x server-behaviour product (policy x 13 auth types x host kind x STARTTLS advertisement/reply x handshake kind x advertised AUTH list) with real crypto/tls handshakes; oracle on a byte tap of cleartext vs TLS bytes",
+         "Full product (~6.9k configurations) incl. implicit TLS through go-mail's own TLS dialer over a loopback bridge, wrong-name / untrusted / garbage handshakes and plaintext injection after STARTTLS.",
+         "Server-side completed handshake implies the client accepted the certificate; implicit TLS only against 127.0.0.1.", "§4 C07"),
+ "C09": ("E3", "bounded-exhaustive input enumeration (all strings <=6 over a 9-symbol alphabet; all single and pairs of 12 slot mutations over 8 seeds; failing/one-byte readers at every offset) with a panic/termination oracle",
+         "~1.2M parses in quick; every slot of every seed is mutated alone and in pairs.",
+         "Termination decided by a 30 s watchdog per case.", "§4 C09"),
+ "C10": ("E3", "bounded-exhaustive enumeration of builder programs within the parser's feature set; three-way comparison model = independent reading of the rendering = getters of the parsed Msg = independent reading of the re-rendering",
+         "Programs over shapes x encodings x contents x file names x subjects x display names.",
+         "Skips programs whose first rendering already violates C01.", "§4 C10"),
+ "C13": ("E2", "stateless model checking of schedules: preemption-bounded exhaustive exploration (bound 2, thorough 3) of 6 thread scenarios under a cooperative scheduler that owns every mutex operation (sync shim via build overlay) and every connection I/O; separate free-running -race pass",
+         "All interleavings up to the bound are executed on the real Client/smtp.Client code; Go's RWMutex writer-preference is modelled so deadlocks are detected as 'no enabled thread'.",
+         "Race clause is sampled by the Go race detector in a separate pass (stated in evidence.race_pass); releases are not preemption points.", "§4 C13"),
+ "C14": ("E3", "bounded-exhaustive enumeration of credential strings (all strings <=2/3 over an 8-symbol alphabet incl. ',', '=', SP, non-ASCII, control) x mechanisms against reference SASL verifiers written from the RFCs; SCRAM parameter sweeps; PLUS over real TLS 1.2/1.3",
+         "~42k exchanges (quick); verifiers self-tested on RFC 5802/7677/2195/4616/6070 vectors; channel binding compared with the server's own view of the TLS connection.",
+         "Admissible-credential predicate per mechanism (stated in evidence); SASLprep vs PRECIS restricted to strings where they agree.", "§4 C14"),
 }
 NOT_YET = {}
 def main():
